@@ -348,6 +348,11 @@ def run_property(prop_id, tier="quick", seed=0, jobs=None):
         for fn in os.listdir(REPLAYS):
             if fn.startswith(prop_id + "-"):
                 os.remove(os.path.join(REPLAYS, fn))
+    # one scratch directory per run, owned by this parent process (worker processes of the pool do not run atexit handlers);
+    # property modules that need files (C19, C20) create theirs below $VERIF_SCRATCH
+    import tempfile, shutil
+    scratch = tempfile.mkdtemp(prefix="verif-%s-" % prop_id)
+    os.environ["VERIF_SCRATCH"] = scratch
     pool = ProcessPoolExecutor(max_workers=jobs) if jobs > 1 else None
     ctx.pool = pool
     try:
@@ -358,6 +363,11 @@ def run_property(prop_id, tier="quick", seed=0, jobs=None):
     finally:
         if pool:
             pool.shutdown()
+        shutil.rmtree(scratch, True)
+        scratch = tempfile.mkdtemp(prefix="verif-%s-" % prop_id)      # for the confirmation replays below
+        os.environ["VERIF_SCRATCH"] = scratch
+        import atexit
+        atexit.register(shutil.rmtree, scratch, True)
 
     # confirm + report violations (each replayed once more in this fresh parent process)
     lines = []
